@@ -337,6 +337,18 @@ def run_item(item):
                                  lambda: np.einsum("nij,nj->ni", Jsel, field.double().numpy()), coords, shape, dtype, comps, vsel, shape)
                     if bad:
                         _report(viol, "convective", bad, layout, pname, dtype, shape, vsel, comps, syms, None)
+                    # an operator applied ON TOP of the convective term with the field itself as flow, div((u.grad)u):
+                    # the flow field is part of the graph and must be differentiated as well
+                    if m == len(colidx):
+                        ssel = [sl[c] for c in colidx]
+                        conv = [sum(sp.diff(es[i], ssel[j]) * es[j] for j in range(m)) for i in range(m)]
+                        dconv = sum(sp.diff(conv[i], ssel[i]) for i in range(m))
+                        exp_dc = evalf([dconv], sl, npv)[0].reshape(n, 1)
+                        u = U()
+                        bad = run_op("div(convective)", lambda: do.div(do.convective(u, u, *[coords[v] for v in vsel]), *[coords[v] for v in vsel]),
+                                     lambda: exp_dc, coords, shape, dtype, comps, vsel, shape)
+                        if bad:
+                            _report(viol, "div(convective)", bad, layout, pname, dtype, shape, vsel, comps, syms, None)
                     if D == 3 and len(vsel) == 1:
                         u = U()
                         curl = np.stack([Jsel[:, 2, 1] - Jsel[:, 1, 2], Jsel[:, 0, 2] - Jsel[:, 2, 0], Jsel[:, 1, 0] - Jsel[:, 0, 1]], -1)
